@@ -13,6 +13,8 @@ for d in sorted(glob.glob(V + '/seeded/*')):
     summ = (m.get('summary') or '').replace('\n', ' ').replace('|', '/')
     if len(summ) > 170:
         summ = summ[:167] + '...'
+    if m.get('own'):
+        summ = '(my own change, not a sub-agent\'s) ' + summ
     hist = m.get('history', '')
     verdict = 'caught' if m.get('caught') else 'NOT caught'
     if hist:
@@ -26,6 +28,6 @@ for d in sorted(glob.glob(V + '/seeded/*')):
     if m.get('expected') == 'silent':
         verdict = 'not caught, by design: allowed by the documented contract (see meta.json note)'
     rows.append(f"| {name} | {summ} | {verdict} | {'; '.join(sigs[:2])} |")
-print("| id | change (independent sub-agent, given only the property text) | result | signature(s) reported |")
+print("| id | change (independent sub-agent, given only the property text, unless marked) | result | signature(s) reported |")
 print("|---|---|---|---|")
 print("\n".join(rows))
